@@ -16,7 +16,7 @@ func TestC02(t *testing.T) {
 		"2..6 Gets on 1..3 keys, builders failing 35%, backend Read/Write faults injected with probability 0.2 at each backend call-out, "+
 		"SkipRead contexts 1/5, typed (FailoverOf[int], zero = 0) and interface{} (nil = 0) values; builder tokens, seeds and error numbers are "+
 		"unique so that 'belongs to another key' is decidable; non-trivial = more than 2 steps per Get and >= 2 Gets",
-		260, FOpts{MinGets: 2, MaxGets: 6, Keys: 3, FailRate: 0.35, FaultProb: 0.2, Skip: true})
+		260, FOpts{MinGets: 2, MaxGets: 6, Keys: 3, FailRate: 0.35, FaultProb: 0.2, Skip: true, Collide: true})
 }
 
 // TestC04 runs to quiescence with hostile callers, then forces expiry and asks for every key again.
